@@ -47,6 +47,7 @@ class Contract:
         self.ensures = []
         self.invariants = {}  # loop ordinal -> [Clause]
         self.unroll = {}  # loop ordinal -> True
+        self.cases = {}  # parameter -> list of concrete values (finite case split)
         self.afters = {}  # loop ordinal -> [Clause]: loop summary proved on every exit path, then the only thing known
         self.assigns = None  # None = unspecified (anything), [] = pure
         self.raises_never = False
@@ -94,6 +95,10 @@ class Contract:
                 k = ast.literal_eval(args[0])
                 for e in args[1:]:
                     self.afters.setdefault(k, []).append(Clause("after%d" % k, e, st.lineno, file))
+            elif f == "cases":
+                # finite case split on a scalar parameter: the function is verified once per listed value
+                for k, v in kw.items():
+                    self.cases[k] = ast.literal_eval(v)
             elif f == "unroll":
                 for a in args:
                     self.unroll[ast.literal_eval(a)] = True
